@@ -54,7 +54,7 @@ type c12xWorld struct {
 	V2DutchVault, V2DutchBorrow, V2Surplus, V2Debt uint64 // generation-2 auction ids
 	V1Dutch, V1LendDutch, V1Surplus, V1Debt         uint64 // generation-1 auction ids (0 = not running)
 	V1SurplusMap, V1DebtMap                         uint64
-	GaugePool                                       uint64
+	SoloApp, SoloExtPair                            uint64
 	Notes                                           []string
 }
 
@@ -93,7 +93,7 @@ func c12xSetup(t *testing.T, a *chain.App, base sdk.Context) *c12xWorld {
 			IsEnglishActivated: true, EnglishAuctionParam: &liquidationsv2types.EnglishAuctionParam{DecrementFactor: sdk.NewInt(1)}, KeeeperIncentive: c12Dec("0.1")})
 	}
 	if err := a.EsmKeeper.AddESMTriggerParamsForApp(ctx, &bindings.MsgAddESMTriggerParams{AppID: harbor, TargetValue: c12Coin(c12DenomHARBOR, 1_000_000_000),
-		CoolOffPeriod: 3600, AssetID: []uint64{w.CMST}, Rates: []uint64{1000000}}); err != nil {
+		CoolOffPeriod: 3600, AssetID: []uint64{w.CMST, w.USDC}, Rates: []uint64{1000000, 1000000}}); err != nil {
 		t.Fatalf("c12x AddESMTriggerParamsForApp: %v", err)
 	}
 	// reserve funds of both apps (the generation-2 bid path draws on them when the collateral does not cover the debt;
@@ -105,27 +105,41 @@ func c12xSetup(t *testing.T, a *chain.App, base sdk.Context) *c12xWorld {
 
 	// collector: (harbor, CMST) runs surplus auctions, three further collector assets give the debt auction of
 	// generation 2 and the surplus / debt auctions of generation 1 (one mapping carries one running auction)
-	lookup := func(asset uint64) {
-		if err := a.CollectorKeeper.WasmSetCollectorLookupTable(ctx, &bindings.MsgSetCollectorLookupTable{AppID: harbor, CollectorAssetID: asset,
-			SecondaryAssetID: w.HARBOR, SurplusThreshold: sdk.NewInt(10_000_000_000), DebtThreshold: sdk.NewInt(5_000_000), LockerSavingRate: sdk.ZeroDec(),
+	lookup := func(app, asset uint64) {
+		if err := a.CollectorKeeper.WasmSetCollectorLookupTable(ctx, &bindings.MsgSetCollectorLookupTable{AppID: app, CollectorAssetID: asset,
+			SecondaryAssetID: w.HARBOR, SurplusThreshold: sdk.NewInt(100_000_000), DebtThreshold: sdk.NewInt(5_000_000), LockerSavingRate: sdk.ZeroDec(),
 			LotSize: sdk.NewInt(2_000_000), BidFactor: c12Dec("0.01"), DebtLotSize: sdk.NewInt(2_000_000)}); err != nil {
 			t.Fatalf("c12x WasmSetCollectorLookupTable %d: %v", asset, err)
 		}
 	}
-	mapping := func(asset uint64, surplus bool) {
-		if err := a.CollectorKeeper.WasmSetAuctionMappingForApp(ctx, &bindings.MsgSetAuctionMappingForApp{AppID: harbor, AssetIDs: asset,
+	mapping := func(app, asset uint64, surplus bool) {
+		if err := a.CollectorKeeper.WasmSetAuctionMappingForApp(ctx, &bindings.MsgSetAuctionMappingForApp{AppID: app, AssetIDs: asset,
 			IsSurplusAuctions: surplus, IsDebtAuctions: !surplus, AssetOutOraclePrices: false, AssetOutPrices: 1000000}); err != nil {
 			t.Fatalf("c12x WasmSetAuctionMappingForApp %d: %v", asset, err)
 		}
 	}
-	fees := func(asset uint64, denom string, amt int64) {
-		if err := a.CollectorKeeper.SetNetFeeCollectedData(ctx, harbor, asset, sdk.NewInt(amt)); err != nil {
+	fees := func(app, asset uint64, denom string, amt int64) {
+		if err := a.CollectorKeeper.SetNetFeeCollectedData(ctx, app, asset, sdk.NewInt(amt)); err != nil {
 			t.Fatalf("c12x SetNetFeeCollectedData: %v", err)
 		}
 		if amt > 0 {
 			c12xFundModule(t, a, ctx, collectortypes.ModuleName, c12Coin(denom, amt))
 		}
 	}
+
+	// the one-off refund message of the collector pays a fixed list of accounts out of the collector's CMST
+	c12xFundModule(t, a, ctx, collectortypes.ModuleName, c12Coin(c12DenomCMST, 21_000_000_000))
+	// rewards.ExternalRewardsVault accepts an app only when EVERY extended pair of the app that has vaults is the named
+	// one: a further vault app with a single extended pair and one vault (of the LP)
+	x.SoloApp = c12AddApp(t, a, ctx, "solo", "solo")
+	for _, p := range a.AssetKeeper.GetPairs(ctx) {
+		if p.AssetIn == w.CMDX && p.AssetOut == w.CMST {
+			x.SoloExtPair = addExtPair(t, a, ctx, extPairCfg{Name: "CMDX-S", App: x.SoloApp, Pair: p.Id, StabilityFee: sdk.NewDecWithPrec(2, 2), ClosingFee: sdk.ZeroDec(),
+				LiqPenalty: sdk.NewDecWithPrec(15, 2), DrawDownFee: sdk.NewDecWithPrec(1, 2), MinCr: sdk.NewDecWithPrec(15, 1), DebtCeiling: sdk.NewInt(1_000_000_000_000),
+				DebtFloor: sdk.NewInt(1_000_000), Active: true, OraclePrice: true, AssetOutPrice: 1000000, MinUsdValLeft: 100000})
+		}
+	}
+	c12Exec(t, a, ctx, "solo vault MsgCreate", vaulttypes.NewMsgCreateRequest(w.LP, x.SoloApp, x.SoloExtPair, sdk.NewInt(100_000_000), sdk.NewInt(20_000_000)))
 
 	// ---------- positions at the old price: the owners lean on their positions, helpers open the ones to be seized ----------
 	for _, v := range views0 {
@@ -182,11 +196,15 @@ func c12xSetup(t *testing.T, a *chain.App, base sdk.Context) *c12xWorld {
 	}
 
 	// generation-2 english auctions through the module's own starter
-	mapping(w.CMST, true)
-	fees(w.CMST, c12DenomCMST, 10_000_000_000+4_000_000)
-	lookup(w.USDC)
-	mapping(w.USDC, false)
-	fees(w.USDC, c12DenomUSDC, 0)
+	if err := a.CollectorKeeper.WasmUpdateCollectorLookupTable(ctx, &bindings.MsgUpdateCollectorLookupTable{AppID: harbor, AssetID: w.CMST, DebtThreshold: sdk.NewInt(5_000_000),
+		SurplusThreshold: sdk.NewInt(100_000_000), LotSize: sdk.NewInt(2_000_000), DebtLotSize: sdk.NewInt(2_000_000), BidFactor: c12Dec("0.01"), LSR: c12Dec("0.06")}); err != nil {
+		t.Fatalf("c12x WasmUpdateCollectorLookupTable: %v", err)
+	}
+	mapping(harbor, w.CMST, true)
+	fees(harbor, w.CMST, c12DenomCMST, 100_000_000+4_000_000)
+	lookup(harbor, w.USDC)
+	mapping(harbor, w.USDC, false)
+	fees(harbor, w.USDC, c12DenomUSDC, 0)
 	before := a.NewaucKeeper.GetAuctionID(ctx)
 	if err := a.NewliqKeeper.LiquidateForSurplusAndDebt(ctx); err != nil {
 		t.Fatalf("c12x LiquidateForSurplusAndDebt: %v", err)
@@ -208,20 +226,23 @@ func c12xSetup(t *testing.T, a *chain.App, base sdk.Context) *c12xWorld {
 		t.Fatalf("c12x: generation-2 english auctions surplus %d debt %d", x.V2Surplus, x.V2Debt)
 	}
 
-	// generation-1 surplus / debt auctions: only auction.BeginBlocker starts them and this tree does not wire it
-	lookup(w.ATOM)
-	mapping(w.ATOM, true)
-	fees(w.ATOM, c12DenomATOM, 10_000_000_000+4_000_000)
-	lookup(w.CMDX)
-	mapping(w.CMDX, false)
-	fees(w.CMDX, c12DenomCMDX, 0)
+	// generation-1 surplus / debt auctions: only auction.BeginBlocker starts them and this tree does not wire it.  They run
+	// in the single-pair app (the shutdown of the vault app needs every net fee of that app to be in a debt asset)
+	a.AuctionKeeper.SetAuctionParams(ctx, auctiontypes.AuctionParams{AppId: x.SoloApp, AuctionDurationSeconds: 3600, Buffer: c12Dec("1.2"), Cusp: c12Dec("0.6"),
+		Step: sdk.NewIntFromUint64(1), PriceFunctionType: 1, SurplusId: 1, DebtId: 2, DutchId: 3, BidDurationSeconds: 1800})
+	lookup(x.SoloApp, w.CMST)
+	mapping(x.SoloApp, w.CMST, true)
+	fees(x.SoloApp, w.CMST, c12DenomCMST, 100_000_000+4_000_000)
+	lookup(x.SoloApp, w.USDC)
+	mapping(x.SoloApp, w.USDC, false)
+	fees(x.SoloApp, w.USDC, c12DenomUSDC, 0)
 	if p, msg := safely(func() { auction.BeginBlocker(ctx, a.AuctionKeeper, a.AssetKeeper, a.CollectorKeeper, a.EsmKeeper) }); p {
 		x.Notes = append(x.Notes, "auction.BeginBlocker panicked: "+msg)
 	}
-	for _, au := range a.AuctionKeeper.GetSurplusAuctions(ctx, harbor) {
+	for _, au := range a.AuctionKeeper.GetSurplusAuctions(ctx, x.SoloApp) {
 		x.V1Surplus, x.V1SurplusMap = au.AuctionId, au.AuctionMappingId
 	}
-	for _, au := range a.AuctionKeeper.GetDebtAuctions(ctx, harbor) {
+	for _, au := range a.AuctionKeeper.GetDebtAuctions(ctx, x.SoloApp) {
 		x.V1Debt, x.V1DebtMap = au.AuctionId, au.AuctionMappingId
 	}
 
@@ -296,10 +317,10 @@ func c12xMessages(x *c12xWorld, v *c12World, signer sdk.AccAddress) []c12xMsg {
 	add("auction.MsgPlaceDutchBid", "v1-dutch", auctiontypes.NewMsgPlaceDutchBid(s, x.V1Dutch, c12Coin(c12DenomCMDX, 10_000_000), har, 3), "X", har, 1)
 	add("auction.MsgPlaceDutchLendBid", "v1-lend-dutch", auctiontypes.NewMsgPlaceDutchLendBid(s, x.V1LendDutch, c12Coin(c12DenomCMDX, 10_000_000), com, 3), "X", com, 1)
 	if x.V1Surplus != 0 {
-		add("auction.MsgPlaceSurplusBid", "v1-surplus", auctiontypes.NewMsgPlaceSurplusBid(s, x.V1Surplus, c12Coin(c12DenomHARBOR, 3_000_000), har, x.V1SurplusMap), "X", har, 1)
+		add("auction.MsgPlaceSurplusBid", "v1-surplus", auctiontypes.NewMsgPlaceSurplusBid(s, x.V1Surplus, c12Coin(c12DenomHARBOR, 3_000_000), x.SoloApp, x.V1SurplusMap), "X", x.SoloApp, 1)
 	}
 	if x.V1Debt != 0 {
-		add("auction.MsgPlaceDebtBid", "v1-debt", auctiontypes.NewMsgPlaceDebtBid(s, x.V1Debt, c12Coin(c12DenomHARBOR, 1_900_000), c12Coin(c12DenomCMDX, 2_000_000), har, x.V1DebtMap), "X", har, 1)
+		add("auction.MsgPlaceDebtBid", "v1-debt", auctiontypes.NewMsgPlaceDebtBid(s, x.V1Debt, c12Coin(c12DenomHARBOR, 1_900_000), c12Coin(c12DenomUSDC, 2_000_000), x.SoloApp, x.V1DebtMap), "X", x.SoloApp, 1)
 	}
 	// ---------- auctionsV2 ----------
 	add("auctionsV2.MsgPlaceMarketBid", "v2-dutch-vault", auctionsv2types.NewMsgPlaceMarketBid(s, x.V2DutchVault, c12Coin(c12DenomCMST, 10_000_000)), "X", har, 1)
@@ -320,12 +341,12 @@ func c12xMessages(x *c12xWorld, v *c12World, signer sdk.AccAddress) []c12xMsg {
 	g.Kind = &rewardstypes.MsgCreateGauge_LiquidityMetaData{LiquidityMetaData: &rewardstypes.LiquidtyGaugeMetaData{PoolId: w.LiqPool, IsMasterPool: false}}
 	add("rewards.CreateGauge", "gauge", g, "X", w.LiqApp, 1)
 	add("rewards.ExternalRewardsLockers", "ext-locker", rewardstypes.NewMsgActivateExternalRewardsLockers(har, w.CMST, c12Coin(c12DenomHARBOR, 10_000_000), 5, 1, signer), "X", har, 1)
-	add("rewards.ExternalRewardsVault", "ext-vault", rewardstypes.NewMsgActivateExternalRewardsVault(har, w.ExtPair, c12Coin(c12DenomHARBOR, 10_000_000), 5, 1, signer), "X", har, 1)
+	add("rewards.ExternalRewardsVault", "ext-vault", rewardstypes.NewMsgActivateExternalRewardsVault(x.SoloApp, x.SoloExtPair, c12Coin(c12DenomHARBOR, 10_000_000), 5, 1, signer), "X", x.SoloApp, 1)
 	add("rewards.ExternalRewardsLend", "ext-lend", rewardstypes.NewMsgActivateExternalRewardsLend(com, w.LendPool, []uint64{w.CMST}, w.LiqApp, 0, c12Coin(c12DenomHARBOR, 10_000_000),
 		int64(w.LiqPool), 5, 1, signer), "X", com, 1)
 	add("rewards.ExternalRewardsStableMint", "ext-stable", rewardstypes.NewMsgActivateExternalRewardsStableVault(har, w.LiqApp, com, c12Coin(c12DenomHARBOR, 10_000_000), 5, 1, signer), "X", har, 1)
 	// ---------- collector, tokenmint ----------
-	add("collector.Deposit", "refund", collectortypes.NewMsgDeposit(s, c12Coin(c12DenomATOM, 1_000_000), 2), "X", har, 1)
+	add("collector.Deposit", "refund", collectortypes.NewMsgDeposit(s, c12Coin(c12DenomATOM, 20_163_520_000), 2), "X", har, 1)
 	add("tokenmint.MsgMintNewTokens", "genesis-mint", tokenminttypes.NewMsgMintNewTokensRequest(s, har, w.XTKN), "X", har, 1)
 	return ms
 }
